@@ -294,7 +294,9 @@ PROPS = {
     "C06": {
         "level": "other",
         "design_ref": "DESIGN.md section 5, C06",
-        "summary": ("No-crash, at the evaluator's value-type dispatch points and in the callees behind them.  DISPATCH (Verus, blocks and functions "
+        "summary": ("No-crash, at the evaluator's value-type dispatch points and in the callees behind them.  ORDER (unit eval_ops): `and`/`or` evaluate "
+                    "the left operand once and first and the right one exactly when the left does not decide the result; every other binary operator "
+                    "evaluates both operands once each, left first.  DISPATCH (Verus, blocks and functions "
                     "cut from src/runtime.rs on every run, for ALL runtime types of every operand/receiver/argument): the binary operator dispatch, "
                     "`and`/`or`, unary operators, if/jasi conditions, the index receiver, eval_member_call, eval_string_member_call, "
                     "eval_array_member_call, eval_array_member_call_mut, eval_process_command_call_mut, eval_builtin_call and check_method_arity contain no reachable "
